@@ -183,7 +183,7 @@ impl Program {
             "cap" => self.cap = if v == "u" { None } else { Some(num(v)? as usize) },
             "class" => {
                 self.class = match v {
-                    "z" | "b" | "w" | "l" => v.chars().next().unwrap(),
+                    "z" | "b" | "w" | "l" | "p" | "q" => v.chars().next().unwrap(),
                     _ => return Err(format!("bad class `{}`", v)),
                 }
             }
